@@ -358,8 +358,12 @@ func (g *gen) setupWorld(o worldOpts) {
 	g.emit("#@ profile " + g.profile)
 	g.nsh = o.nsh
 	if g.nsh == 0 {
-		// 1..3 shards, varying with the seed; most seeds are multi-shard (seed 1: 3, 2: 2, 3: 3, 4: 1, 5: 2, …)
+		// 1..3 shards, varying with the seed; most seeds are multi-shard (seed 1: 3, 2: 2, 3: 3, 4: 1, 5: 2, …). A quick
+		// run is one world per profile: it is never the single-shard one (nothing cross-shard could happen in it).
 		g.nsh = []int{3, 2, 3, 1, 2}[int(((g.seed-1)%5+5)%5)]
+		if g.nsh == 1 && !g.thorough {
+			g.nsh = 2
+		}
 	}
 	if o.nUsers == 0 {
 		o.nUsers = 6 + g.r.Intn(5)
